@@ -107,7 +107,8 @@ let cmd_gen seed n outdir profile ovr =
     Stats.add outcomes "cases" 1;
     if c.kind = "FUEL" || c.kind = "STUCK" || c.kind = "TIMEOUT" then
       (* not a usable case: the generator produced something outside the model or too expensive *)
-      Stats.add outcomes ("dropped." ^ c.kind) 1
+      (Stats.add outcomes ("dropped." ^ c.kind) 1;
+       Printf.fprintf oa "%s\t%s\n" id (Sexp.program_to_string p))
     else if cu <> c || cr <> c then begin
       Stats.add outcomes "dropped.renaming-changes-evaluator-outcome" 1;
       Printf.fprintf oe "%s\t%s\t0\tHARNESS uniq-mismatch\t\t\t0\n" id profile;
